@@ -1,4 +1,3 @@
-(* WIP *)
 (* Model of mempool/bufpool.go: the packet buffer pool (Buffer, BufferWithCap over sync.Pool) and
    its users, as a labelled transition system over atomic actions.  No proofs in this file.
 
